@@ -188,7 +188,7 @@ def gen_case(rng, tier, idx, budget=None):
     if c < 0.3:
         g = X.num(1)
     else:
-        ncoord = min(ldim, pdim)        # coordinates beyond the logical dimension are not transformed (a finding): see corpus
+        ncoord = pdim                   # all physical coordinates (z on a surface: repaired by 45cf5a0, see corpus)
         if region["t"] == "interface" and sides and sides[1] == "+" and sides[0] == "+":
             g = X.num(rng.choice([2, 3]))                         # plus-side piece keeps the minus coordinates: see corpus
         else:
